@@ -290,6 +290,7 @@ class GapUnit:
     pattern's language is compared with 'any run of white space' (RegLan equivalence)."""
     kind = "gap"
     name = "ctparse._regex_stack.get_m_dist"
+    qualnames = ["ctparse._regex_stack"]
     props = {"C15"}
     cost = 1
 
@@ -376,6 +377,7 @@ class BoundedSearchUnit:
     """bounded stand-ins for the pre-filter and for _match_regex (see replay/bounded_search.py)"""
     kind = "bounded"
     name = "partial_parse._seq_match+ctparse._match_regex[bounded]"
+    qualnames = ["partial_parse._seq_match", "partial_parse.PartialParse._filter_rules", "ctparse._match_regex"]
     props = {"C15"}
     cost = 3
 
@@ -457,5 +459,320 @@ def from_regex_matches_unit(world):
                     ["C15", "C12", "C01"], setup, call, ens, prop_map={"safety": ["C15", "C01"], "frame": ["C12", "C15"]})
 
 
+class PredicateUnit:
+    """the pattern elements of a rule: regex_match(id), dimension(C), predicate(name) and the Time /
+    Interval properties they read mean what the rule contracts take them to mean"""
+    kind = "lemma"
+    name = "rule.regex_match+dimension+predicate"
+    props = {"C15", "C19", "C02"}
+    qualnames = ["rule.regex_match", "rule.dimension", "rule.predicate", "types.Artifact._hasOnly", "types.Artifact._hasAtLeast"]
+    cost = 2
+
+    def sha(self, world):
+        return "+".join(world.sha(world.func(q)) for q in self.qualnames)
+
+    def run(self, world, prop, tier):
+        from pyvc.vcgen import Obligation, merged_formula
+        from pyvc import symargs
+        from pyvc.interp import Interp
+        from spec.views import only, atleast, fld, opt_obj
+        from pyvc.logic import And as A, Or as O, Not as N
+        obs = []
+
+        def ob(clause, ok, detail=""):
+            o = Obligation(self.name, clause, ["C15", "C19", "C02"])
+            o.kind = "lemma"
+            o.paths = o.queries = 1
+            o.backend["z3"] += 1
+            if ok is not True:
+                o.status = "failed" if ok is False else "undecided"
+                o.detail = detail
+                o.no_input_expected = True
+            obs.append(o)
+
+        def equivalent(setup, fn, spec_fn, label):
+            """forall arguments: truthy(real code) <=> spec"""
+            try:
+                f_real = merged_formula(world, setup, fn)
+            except Exception as e:
+                ob(label, None, "cannot evaluate: %s" % e)
+                return
+            it = Interp(world)
+            args = setup(it)
+            sp = spec_fn(args)
+            s = z3.Solver()
+            s.set("timeout", 20000)
+            for c in it.pc:
+                s.add(c)
+            s.add(z3.Not(z3.BoolVal(f_real) if isinstance(f_real, bool) else f_real) != z3.Not(z3.BoolVal(sp) if isinstance(sp, bool) else sp))
+            r = s.check()
+            ob(label, True if r == z3.unsat else (False if r == z3.sat else None),
+               "the real predicate and its meaning in the contracts differ" + (": %s" % s.model() if r == z3.sat else ""))
+        rm = world.modules["ctparse.rule"]
+        mk = lambda it, name, arg: it.call(rm.globals[name], [arg], {})
+        # Time properties used as rule predicates
+        TIME = {"isDOM": lambda t: only(t, "day"), "isMonth": lambda t: only(t, "month"), "isDOW": lambda t: only(t, "DOW"),
+                "isPOD": lambda t: only(t, "POD"), "isYear": lambda t: only(t, "year"), "isDOY": lambda t: only(t, "month", "day"),
+                "isDate": lambda t: only(t, "year", "month", "day"), "isHour": lambda t: only(t, "hour"),
+                "isTOD": lambda t: O(only(t, "hour"), only(t, "hour", "minute")),
+                "isDateTime": lambda t: O(only(t, "year", "month", "day", "hour"), only(t, "year", "month", "day", "hour", "minute")),
+                "hasDate": lambda t: atleast(t, "year", "month", "day"), "hasDOY": lambda t: atleast(t, "month", "day"),
+                "hasDOW": lambda t: atleast(t, "DOW"), "hasTime": lambda t: atleast(t, "hour"), "hasPOD": lambda t: atleast(t, "POD")}
+        used = sorted({v for n, ps in world.consts["registry"] for k, v in ps if k == "predicate"})
+        for pname in sorted(set(TIME) | set(used)):
+            if pname in ("isDateInterval", "isTimeInterval"):
+                continue
+            if pname not in TIME:
+                ob("predicate[%s]-has-a-stated-meaning" % pname, False, "rule base uses predicate %r for which the contracts state no meaning" % pname)
+                continue
+            equivalent(lambda it: [symargs.mk_time(it, world, "t")],
+                       lambda it, a, _p=pname: it.call(mk(it, "predicate", _p), [a[0]], {}),
+                       lambda a, _p=pname: TIME[_p](a[0]), "predicate[%s]-means-its-field-pattern" % pname)
+
+        def both(i, f):
+            fn, fo = opt_obj(fld(i, "t_from"))
+            tn, to = opt_obj(fld(i, "t_to"))
+            return A(N(fn), N(tn), f(fo), f(to))
+        for pname, f in (("isDateInterval", TIME["isDate"]), ("isTimeInterval", TIME["isTOD"])):
+            equivalent(lambda it: [symargs.mk_interval(it, world, "i")],
+                       lambda it, a, _p=pname: it.call(mk(it, "predicate", _p), [a[0]], {}),
+                       lambda a, _f=f: both(a[0], _f), "predicate[%s]-means-both-ends" % pname)
+        # a misspelt predicate is silently false (getattr default): documented behaviour the cover obligation relies on
+        equivalent(lambda it: [symargs.mk_time(it, world, "t")], lambda it, a: it.call(mk(it, "predicate", "isNoSuchThing"), [a[0]], {}),
+                   lambda a: False, "unknown-predicate-is-false")
+        # dimension(C)
+        for cname, argmk, want in (("Time", symargs.mk_time, True), ("Interval", symargs.mk_time, False), ("Duration", symargs.mk_duration, True),
+                                   ("Interval", symargs.mk_interval, True)):
+            tag = "dimension[%s]-on-%s" % (cname, argmk.__name__[3:])
+            equivalent(lambda it, _m=argmk: [_m(it, world, "x")], lambda it, a, _c=cname: it.call(mk(it, "dimension", world.classes[_c]), [a[0]], {}),
+                       lambda a, _w=want if argmk.__name__[3:].capitalize() == cname or not want else want: _w, tag)
+        # regex_match(id)
+        rid = z3.Int("rid")
+
+        def setup_rm(it):
+            o = symargs.mk_regexmatch(it, world, min(world.patterns), "m")
+            o.attrs["id"] = z3.Int("m.id")
+            return [o]
+        equivalent(setup_rm, lambda it, a: it.call(mk(it, "regex_match", rid), [a[0]], {}), lambda a: a[0].attrs["id"] == rid,
+                   "regex_match-is-a-match-of-that-pattern-id")
+        equivalent(lambda it: [symargs.mk_time(it, world, "t")], lambda it, a: it.call(mk(it, "regex_match", rid), [a[0]], {}),
+                   lambda a: False, "regex_match-rejects-other-values")
+        return obs, {"paths": len(obs)}
+
+
 def units(world):
-    return [match_rule_unit(world), lt_unit(world), GapUnit(), BoundedSearchUnit(), from_regex_matches_unit(world)] + apply_rule_units(world) + regex_stack_units(world)
+    return [match_rule_unit(world), lt_unit(world), GapUnit(), BoundedSearchUnit(), from_regex_matches_unit(world), PredicateUnit()] + apply_rule_units(world) + regex_stack_units(world)
+
+
+# ---------------------------------------------------------------------------------------------
+# one iteration of the production loop of _ctparse, from an arbitrary state (loop-body contract)
+def production_step_units(world):
+    from pyvc.values import SymMap, ModVal
+    from pyvc.interp import Frame
+
+    def find_loop(fnode):
+        for n in ast.walk(fnode):
+            if isinstance(n, ast.While) and isinstance(n.test, ast.Name) and n.test.id == "stack":
+                return n
+        return None
+
+    def mk(new_kind, depth):
+        """new_kind: what the single rule application yields: 'none' | 'value'; depth: max_stack_depth"""
+        def pp(w, tag):
+            o = Obj(w.classes["PartialParse"], fresh=False, label=tag)
+            o.attrs.update({"max_covered_chars": z3.Int(tag + ".covered"), "score": z3.Real(tag + ".score"), "prod": Tok(tag + ".prod"),
+                            "rules": Tok(tag + ".rules"), "applicable_rules": {}})
+            return o
+
+        def setup(it, w):
+            s_top = pp(w, "s")
+            x = Obj(w.classes["Time"], fresh=False, label="x")
+            s_top.attrs["prod"] = (x,)
+            rule_f = Tok("ruleF")
+            s_top.attrs["applicable_rules"] = {"ruleA": (rule_f, [Tok("pred")])}
+            rest = [pp(w, "r0"), pp(w, "r1")]
+            # the stack is kept sorted (invariant of the loop): r0 <= r1 <= s
+            lt = lambda a, b: z3.Or(a.attrs["max_covered_chars"] < b.attrs["max_covered_chars"],
+                                    z3.And(a.attrs["max_covered_chars"] == b.attrs["max_covered_chars"], a.attrs["score"] < b.attrs["score"]))
+            it.assume(z3.And(z3.Not(lt(rest[1], rest[0])), z3.Not(lt(s_top, rest[1]))))
+            return [s_top, rest, SymMap("stack_prod"), z3.Real("new_score"), {"calls": [], "tfun": 0}]
+
+        def call(it, w, a):
+            s_top, rest, SP, ns, seen = a
+            f = w.func("ctparse._ctparse")
+            loop = find_loop(f.node)
+            if loop is None:
+                raise Unsupported("production loop `while stack:` not found")
+            fr = Frame(f, None)
+            fr.yielded = []
+            new_pp = None
+            if new_kind == "value":
+                new_pp = pp(w, "n")
+                new_pp.fresh = True
+                new_pp.attrs["prod"] = Tok("n.prod")
+                new_pp.attrs["score"] = 0.0
+            seen["new"] = new_pp
+            it.contracts = dict(it.contracts)
+            it.contracts["ctparse._match_rule"] = lambda it2, f2, args, k: [(0, 1)]
+
+            def apply_rule(it2, f2, args, k):
+                seen["calls"].append(("apply_rule", args))
+                return new_pp
+            it.contracts["partial_parse.PartialParse.apply_rule"] = apply_rule
+
+            def score(it2, args, k):
+                seen["calls"].append(("score", args))
+                return ns
+
+            def score_final(it2, args, k):
+                seen["calls"].append(("score_final", args))
+                return z3.Real("final_score")
+
+            def t_fun(it2, args, k):
+                seen["tfun"] += 1
+                seen["calls"].append(("t_fun", ()))
+                return None
+            stack = rest + [s_top]
+            seen["stack0"] = list(stack)
+            fr.vars.update({"stack": stack, "t_fun": Builtin("t_fun", t_fun), "ts": Tok("ts"), "txt": Tok("txt"),
+                            "scorer": ModVal("scorer", {"score": Builtin("score", score), "score_final": Builtin("score_final", score_final)}),
+                            "stack_prod": SP, "parse_prod": SymMap("parse_prod"), "max_stack_depth": depth,
+                            "subject": Tok("subject"), "labels": Tok("labels")})
+            # exactly one iteration of the loop body
+            it.exec_block(loop.body, fr)
+            return (fr.vars["stack"], fr.yielded)
+
+        def ens(it, w, a, r):
+            s_top, rest, SP, ns, seen = a
+            stack, yielded = r
+            new_pp = seen["new"]
+            calls = [c[0] for c in seen["calls"]]
+            out = [("deadline-check-before-any-work", ["C13", "C15"], calls[:1] == ["t_fun"] and seen["tfun"] == 1),
+                   ("rule-applied-with-reference-time-rule-name-and-window", ["C15", "C03"],
+                    any(c[0] == "apply_rule" and c[1][0] is s_top and getattr(c[1][1], "name", None) == "ts"
+                        and getattr(c[1][2], "name", None) == "ruleF" and c[1][3] == "ruleA" and c[1][4] == (0, 1) for c in seen["calls"]))]
+            if new_pp is None:
+                out.append(("nothing-new-means-the-values-are-emitted", ["C15", "C14"],
+                            len(yielded) >= 0 and "score_final" in calls and all(x in seen["stack0"] for x in stack)
+                            and len(stack) == 2 and s_top not in stack))
+                return out
+            key = SP.key(new_pp.attrs["prod"])
+            better = z3.Or(z3.Not(z3.Select(SP.dom0, key)), z3.Select(SP.val0, key) < ns)
+            emitted = "score_final" in calls
+            pushed = not emitted        # accepted candidates suppress emission (it may still fall off the depth-limited stack)
+            out.append(("new-candidate-kept-iff-unseen-or-strictly-better", ["C15", "C14"], better if pushed else z3.Not(better)))
+            out.append(("scored-before-comparison", ["C15", "C14"], new_pp.attrs.get("score") is ns))
+            if pushed:
+                out.append(("dedup-table-records-the-score", ["C15", "C14"],
+                            z3.And(SP.dom == z3.Store(SP.dom0, key, z3.BoolVal(True)), SP.val == z3.Store(SP.val0, key, ns))))
+                out.append(("no-emission-while-something-new-was-derived", ["C15"], not emitted and not yielded))
+                members = [x for x in seen["stack0"] if x is not s_top] + [new_pp]
+                k = depth if depth > 0 else 3
+                # depth limit only removes candidates, keeps the best, never invents
+                srt = all(any(x is y for y in members) for x in stack) and len(stack) == min(3, k) and len(set(map(id, stack))) == len(stack)
+                out.append(("stack-is-a-suffix-of-the-sorted-candidates", ["C15"], srt))
+                lt = lambda p, q: z3.Or(p.attrs["max_covered_chars"] < q.attrs["max_covered_chars"],
+                                        z3.And(p.attrs["max_covered_chars"] == q.attrs["max_covered_chars"], p.attrs["score"] < q.attrs["score"]))
+                if srt:
+                    dropped = [x for x in members if not any(x is y for y in stack)]
+                    out.append(("kept-candidates-are-sorted-and-not-worse-than-dropped-ones", ["C15"],
+                                z3.And(*([z3.Not(lt(stack[i + 1], stack[i])) for i in range(len(stack) - 1)] +
+                                         [z3.Not(lt(y, x)) for x in dropped for y in stack]))))
+            else:
+                out.append(("dedup-table-unchanged-when-rejected", ["C15", "C14"], z3.And(SP.dom == SP.dom0, SP.val == SP.val0)))
+            return out
+        u = FuncUnit("ctparse._ctparse.production-step[%s,depth=%d]" % (new_kind, depth), ["ctparse._ctparse"],
+                     ["C15", "C14", "C13", "C03"], setup, call, ens, check_frame=False, prop_map={"safety": ["C15", "C01"]})
+        u.cost = 3
+        return u
+    return [mk("none", 10), mk("value", 0), mk("value", 2), mk("value", 10)]
+
+
+_units_c15 = units
+
+
+def units(world):  # noqa: F811
+    return _units_c15(world) + production_step_units(world)
+
+
+def initial_filter_unit(world):
+    """the initial-stack filter of _ctparse: after sorting, only sequences covering at least
+    relative_match_len x the best coverage survive, then the depth limit keeps the best ones"""
+    from pyvc.interp import Frame
+
+    def block(fnode):
+        body = None
+        for n in ast.walk(fnode):
+            if isinstance(n, ast.Try):
+                body = n.body
+        if body is None:
+            return None
+        for i, st in enumerate(body):
+            if (isinstance(st, ast.Assign) and isinstance(st.value, ast.ListComp)
+                    and any(isinstance(x, ast.Name) and x.id == "relative_match_len" for x in ast.walk(st.value))):
+                j = i
+                while j > 0 and not (isinstance(body[j - 1], ast.Expr) and isinstance(body[j - 1].value, ast.Call)
+                                     and getattr(body[j - 1].value.func, "attr", "") == "sort"):
+                    j -= 1
+                k = i + 1
+                while k < len(body) and not (isinstance(body[k], ast.Assign) and isinstance(body[k].value, ast.Subscript)
+                                             and any(isinstance(x, ast.Name) and x.id == "max_stack_depth" for x in ast.walk(body[k].value))):
+                    k += 1
+                return body[max(j - 1, 0):k + 1]
+        return None
+
+    def mk(depth):
+        def setup(it, w):
+            items = []
+            for i in range(3):
+                o = Obj(w.classes["PartialParse"], fresh=False, label="p%d" % i)
+                o.attrs.update({"max_covered_chars": z3.Int("p%d.covered" % i), "score": z3.Real("p%d.score" % i)})
+                it.assume(o.attrs["max_covered_chars"] >= 1)
+                items.append(o)
+            rml = z3.Real("relative_match_len")
+            it.assume(z3.And(rml > 0, rml <= 1))
+            return [items, rml]
+
+        def call(it, w, a):
+            items, rml = a
+            f = w.func("ctparse._ctparse")
+            stmts = block(f.node)
+            if not stmts:
+                raise Unsupported("initial-stack filter block not found")
+            fr = Frame(f, None)
+            fr.vars.update({"stack": list(items), "relative_match_len": rml, "max_stack_depth": depth})
+            it.exec_block(stmts, fr)
+            return fr.vars["stack"]
+
+        def ens(it, w, a, r):
+            items, rml = a
+            cov = lambda x: x.attrs["max_covered_chars"]
+            lt = lambda p, q: z3.Or(cov(p) < cov(q), z3.And(cov(p) == cov(q), p.attrs["score"] < q.attrs["score"]))
+            best = cov(items[0])
+            for x in items[1:]:
+                best = z3.If(cov(x) > best, cov(x), best)
+            ok = isinstance(r, list) and all(any(x is y for y in items) for x in r) and len(set(map(id, r))) == len(r)
+            if not ok:
+                return [("survivors-are-stack-elements", ["C15"], False)]
+            keep = lambda x: z3.ToReal(cov(x)) >= z3.ToReal(best) * rml
+            k = depth if depth > 0 else 3
+            goals = [keep(x) for x in r] + [z3.Not(lt(r[i + 1], r[i])) for i in range(len(r) - 1)]
+            dropped = [x for x in items if not any(x is y for y in r)]
+            # a dropped element either fails the coverage test or is not better than any survivor while the depth limit is reached
+            for x in dropped:
+                goals.append(z3.Or(z3.Not(keep(x)), z3.And(z3.BoolVal(len(r) == k), *[z3.Not(lt(y, x)) for y in r])))
+            return [("survivors-are-stack-elements", ["C15"], True),
+                    ("exactly-the-sequences-of-maximal-coverage-best-first-within-the-depth-limit", ["C15", "C09"], z3.And(*goals))]
+        u = FuncUnit("ctparse._ctparse.initial-filter[depth=%d]" % depth, ["ctparse._ctparse"], ["C15", "C09"], setup, call, ens,
+                     check_frame=False, prop_map={"safety": ["C15", "C01"]})
+        u.bounded_desc = "initial stack of exactly 3 candidate sequences with symbolic coverage, score and relative_match_len"
+        u.bounded_except = ()
+        return u
+    return [mk(0), mk(2), mk(10)]
+
+
+_units_c15b = units
+
+
+def units(world):  # noqa: F811
+    return _units_c15b(world) + initial_filter_unit(world)
